@@ -4,6 +4,7 @@ import (
 	"errors"
 	"fmt"
 	"github.com/CloudyKit/jet/v6"
+	"math"
 	"reflect"
 	"strconv"
 	"strings"
@@ -49,6 +50,20 @@ func (u User) Twice(s string) string { return s + s }
 type ValRecv struct{ N int }
 
 func (v ValRecv) Hello() string { return "hello" }
+
+// RendStr is a fmt.Stringer, an error and a jet.Renderer at once. Reached through a slot of type fmt.Stringer or error
+// it is printed like any Stringer / error (escaped); only a value that is a Renderer by its own type renders itself.
+type RendStr struct{ S string }
+
+func (r RendStr) String() string         { return r.S }
+func (r RendStr) Error() string          { return r.S }
+func (r RendStr) Render(rt *jet.Runtime) { rt.Writer.Write([]byte("RENDERED-RAW:" + r.S)) }
+
+type StrHolder struct {
+	Label fmt.Stringer
+	List  []fmt.Stringer
+	Err   error
+}
 
 // IfuncVals are the values the "ifunc" functions hand back in an interface{}.
 var IfuncVals = []interface{}{0, "", false, 1, "x", true, nil, 2.5, []int{}, []int{4, 5}}
@@ -306,6 +321,8 @@ func Build(r Recipe) interface{} {
 			xs[i] = 3 * i
 		}
 		return &xs
+	case "map[float64]string-with-nan": // a key that is not equal to itself is still an entry with a value
+		return map[float64]string{math.NaN(): "not-a-number", 1: "one", 2: ""}
 	case "chan string":
 		c := make(chan string, len(r.Ss)+1)
 		for _, x := range r.Ss {
@@ -336,6 +353,8 @@ func Build(r Recipe) interface{} {
 		return map[interface{}]int{"a": 1}
 	case "nil*valrecv": // a nil pointer whose type has a method with a value receiver
 		return (*ValRecv)(nil)
+	case "strholder": // slots of type fmt.Stringer whose values could also render themselves: the slot's type decides
+		return &StrHolder{Label: RendStr{S: r.S}, List: []fmt.Stringer{RendStr{S: r.S + "0"}, RendStr{S: "1" + r.S}}, Err: RendStr{S: r.S}}
 	case "kindstringer": // a value of kind string whose String method says something else than the string it is made of
 		return KindStrg("underlying:" + r.S)
 	case "*stringer":
